@@ -598,6 +598,24 @@ def gen_net_case(rng, kind):
         s.op("advance 300")
         s.settle()
         s.obs()
+    elif kind == "bigburst":
+        # a writer backlog far beyond any plausible batch / buffer limit: many large frames from ONE
+        # sender are queued at the session's write task before it gets to run (no settle in between),
+        # so batching, chunking or buffer caps in the writer must neither lose nor reorder a frame
+        tgt = sorted(s.known)[0]
+        via = rng.choice([0, 1])
+        who = rng.randrange(3)
+        size = rng.choice([3000, 5000, 9000])
+        for _ in range(rng.choice([30, 60])):
+            if rng.random() < 0.85:
+                s.cast(who, via, tgt, size)
+            else:
+                s.call(who, via, tgt, 0, 0, 0, rng.choice([8, 3000]))
+        traffic(s, 5)
+        s.settle()
+        s.op("advance 300")
+        s.settle()
+        s.obs()
     elif kind == "strict":
         traffic(s, rng.choice([5, 15, 40, 80]))
         s.settle()
@@ -842,6 +860,12 @@ def run(chk):
             s = gen_net_case(rng, kind)
             ncases.append({"kind": kind, "line": s.line(), "strict": s.strict, "expect": sorted(s.expect),
                            "quiescent": s.quiescent})
+    # writer-backlog family; its own generator state, so the streams above and below are unchanged
+    import random as _random
+    for i in range((4 if quick else 40) * factor):
+        s = gen_net_case(_random.Random(f"bigburst-{chk.seed if hasattr(chk, 'seed') else 0}-{i}"), "bigburst")
+        ncases.append({"kind": "bigburst", "line": s.line(), "strict": s.strict, "expect": sorted(s.expect),
+                       "quiescent": s.quiescent})
     for c in load_corpus():
         ncases.insert(0, c)
     for line, nq1, nq2 in gen_cut_sweep(rng, quick):
